@@ -86,7 +86,7 @@ def _cvc5_check(smt2, timeout_ms):
     return r, dt, ""
 
 
-class _Alarm(Exception):
+class _Alarm(BaseException):
     pass
 
 
@@ -110,6 +110,9 @@ def _solve_one(args):
     """runs in a worker process: smt2 text of (hyps, not goal) -> verdict"""
     smt2, t_z3, t_cvc5, use_cvc5, poly, derived = args
     t0 = time.time()
+    if os.environ.get("PYVC_DEBUG_HANG"):
+        import faulthandler, sys as _sys
+        faulthandler.dump_traceback_later(int(os.environ["PYVC_DEBUG_HANG"]) - 30, exit=False, file=_sys.stderr)
     try:
         asserts = z3.parse_smt2_string(smt2)
     except z3.Z3Exception as e:
@@ -144,18 +147,28 @@ def _solve_one(args):
     except z3.Z3Exception:
         pass
     eq_goal = poly and _collect_eqs(pgoal) is not None
-    if eq_goal:
-        ok, how = _with_alarm(60, poly_discharge, phyps, pgoal, False)
+    nl_goal = _nonlinear(pgoal) if eq_goal else False
+    # 1. polynomial identity (cheap when the terms are small)
+    if eq_goal and len(smt2) < 400000:
+        ok, how = _with_alarm(8, poly_discharge, phyps, pgoal, False)
         if ok:
             return "discharged", "poly", time.time() - t0, how
-        if _nonlinear(pgoal):
-            ok, how = _with_alarm(30, poly_discharge, base_hyps, pgoal, True)
-            if not ok and len(base_hyps) != len(phyps):
-                ok, how = _with_alarm(30, poly_discharge, phyps, pgoal, True)
-            if ok:
-                return "discharged", "groebner", time.time() - t0, how
-            eq_goal = False  # already tried
-    # stage A: without the hypotheses that constrain nonlinear polynomials (sound: fewer hypotheses)
+    # 2. a quick z3 attempt (most obligations are decided here)
+    quick = min(t_z3, 4000)
+    r, dt, info = _z3_check(smt2, quick, seeds=(0, ))
+    if r == "unsat":
+        return "discharged", "z3", time.time() - t0, info
+    if r == "sat":
+        return "refuted", "z3", time.time() - t0, info
+    # 3. nonlinear equalities: Groebner bases (directly related hypotheses first)
+    if eq_goal and nl_goal:
+        ok, how = _with_alarm(25, poly_discharge, base_hyps, pgoal, True)
+        if not ok and len(base_hyps) != len(phyps):
+            ok, how = _with_alarm(25, poly_discharge, phyps, pgoal, True)
+        if ok:
+            return "discharged", "groebner", time.time() - t0, how
+    # 4. stage A: without the hypotheses that constrain nonlinear polynomials (sound: fewer hypotheses), except those
+    #    over the goal's own symbols
     gsy = _usyms(goal)
     lin_hyps = []
     for h0 in hyps:
@@ -172,17 +185,17 @@ def _solve_one(args):
     ok = _split_last(hyps, goal, min(t_z3, 4000))
     if ok:
         return "discharged", "z3+split", time.time() - t0, ok
+    # 5. quantified polynomial equalities: Skolemise, instantiate, ideal membership
     if poly and z3.is_quantifier(goal):
-        ok, how = _with_alarm(40, _poly_quantified, hyps, goal)
+        ok, how = _with_alarm(30, _poly_quantified, hyps, goal)
         if ok:
             return "discharged", "groebner", time.time() - t0, "instantiated at a Skolem index; " + how
+    # 6. z3 with the full budget (seed portfolio)
     r, dt, info = _z3_check(smt2, t_z3)
     if r == "unsat":
         return "discharged", "z3", time.time() - t0, info
     if r == "sat":
         return "refuted", "z3", time.time() - t0, info
-    # case split "last element / the others" on the Skolem indices of a universally quantified goal -- the shape
-    # of an induction step over an extended list or a loop bound advanced by one
     ok = _split_last(hyps, goal, t_z3)
     if ok:
         return "discharged", "z3+split", time.time() - t0, ok
@@ -192,8 +205,8 @@ def _solve_one(args):
             return "discharged", "cvc5", time.time() - t0, info2
         if r2 == "sat":
             return "refuted", "cvc5", time.time() - t0, "cvc5 sat (z3: %s)" % info
-    if eq_goal:
-        ok, how = _with_alarm(40, poly_discharge, phyps, pgoal, True)
+    if eq_goal and not nl_goal:
+        ok, how = _with_alarm(30, poly_discharge, phyps, pgoal, True)
         if ok:
             return "discharged", "groebner", time.time() - t0, how
     return "undecided", "z3", time.time() - t0, info
@@ -599,46 +612,50 @@ def _poly_discharge(hyps, goal, use_groebner=True, max_hyp_eqs=40, all_hyps=None
 _GB_CACHE = {}
 
 
-def _definitions_only(goals, polys, max_rounds=400):
-    """goal polynomials become 0 after substituting definitional hypotheses (v = expr) into them -- no Groebner
-    basis needed; the non-definitional hypotheses (constraints such as orthonormality) are not used"""
+def _definitions_only(goals, polys, max_rounds=60):
+    """substitute definitional hypotheses (v = expr with v linear, constant coefficient) everywhere.
+    Returns a proof string if the goals vanish, else (goals', constraints') after the substitution."""
     import sympy
     goals = [g for g in goals if g != 0]
-    defs = []
-    for p_ in polys:
-        if p_ == 0:
-            continue
-        try:
-            pp = sympy.Poly(p_, *sorted(p_.free_symbols, key=lambda s_: s_.name))
-        except Exception:
-            continue
-        for v in pp.gens:
-            if pp.degree(v) != 1:
-                continue
-            coef = pp.coeff_monomial(v)
-            if coef == 0 or not sympy.sympify(coef).is_number:
-                continue
-            rest = sympy.expand(p_ - coef * v)
-            if v in rest.free_symbols:
-                continue
-            defs.append((v, sympy.expand(-rest / coef)))
-            break
-    if not defs:
-        return None
+    rest = [q for q in polys if q != 0]
     table = {}
-    for v, e in defs:
-        table.setdefault(v, e)
-    for _ in range(max_rounds):
-        syms = set().union(*[g.free_symbols for g in goals]) if goals else set()
-        hit = [v for v in syms if v in table]
-        if not hit:
+    progress = True
+    rounds = 0
+    while progress and rounds < max_rounds:
+        progress = False
+        rounds += 1
+        for idx, p_ in enumerate(rest):
+            if p_ == 0:
+                continue
+            try:
+                pp = sympy.Poly(p_, *sorted(p_.free_symbols, key=lambda s_: s_.name))
+            except Exception:
+                continue
+            pick = None
+            for v in pp.gens:
+                if pp.degree(v) != 1:
+                    continue
+                coef = pp.coeff_monomial(v)
+                if coef == 0 or not sympy.sympify(coef).is_number:
+                    continue
+                restp = sympy.expand(p_ - coef * v)
+                if v in restp.free_symbols:
+                    continue
+                pick = (v, sympy.expand(-restp / coef))
+                break
+            if pick is None:
+                continue
+            v, e = pick
+            table[v] = e
+            rest = [sympy.Integer(0) if j == idx else (sympy.expand(q.subs(v, e)) if v in q.free_symbols else q)
+                    for j, q in enumerate(rest)]
+            goals = [sympy.expand(g.subs(v, e)) if v in g.free_symbols else g for g in goals]
+            goals = [g for g in goals if g != 0]
+            progress = True
+            if not goals:
+                return "substitution of %d definitions" % len(table)
             break
-        sub = {v: table[v] for v in hit}
-        goals = [sympy.expand(g.subs(sub)) for g in goals]
-        goals = [g for g in goals if g != 0]
-        if not goals:
-            return "substitution of %d definitions" % len(table)
-    return None
+    return goals, [q for q in rest if q != 0]
 
 
 def _direct_attempt(goals, polys, max_hyp_eqs):
@@ -681,14 +698,16 @@ def _ideal_membership(diffs, hyp_polys, max_hyp_eqs=80):
     import sympy
     polys = [sympy.expand(p) for p in hyp_polys]
     goals = list(diffs)
-    # (0) cheap first attempt: only the hypotheses over the goal's own symbols, no elimination
-    ok0 = _direct_attempt(goals, polys, max_hyp_eqs)
-    if ok0:
-        return True, ok0
     # (0b) definitions only: substitute every hypothesis of the form v = expr (v linear, constant coefficient)
     okd = _definitions_only(goals, polys)
-    if okd:
+    if isinstance(okd, str):
         return True, okd
+    goals2, polys2 = okd
+    # goals and constraints with the definitions substituted: now the constraints over the remaining symbols
+    ok1 = _direct_attempt(goals2, polys2, max_hyp_eqs)
+    if ok1:
+        return True, "definitions substituted; " + ok1
+    goals, polys = goals2, polys2
     if len(polys) > 60:
         return False, "too many hypothesis equalities for elimination (%d)" % len(polys)
     # (1) linear definitions
